@@ -231,7 +231,7 @@ def getBlockParameterDefinitions():
 
         def envGroupNum(self, envGroupNum):
             # support capital and lowercase alpha chars (52= 26*2)
-            if envGroupNum > 52:
+            if envGroupNum >= 52:
                 raise RuntimeError(
                     "Invalid env group number ({}): too many groups. 52 is the max.".format(
                         envGroupNum
